@@ -2,7 +2,7 @@
 Require Import H4.MixSpec H4.MixModel H4.gen.Gen_Mix.
 Require Extraction.
 Require ExtrOcamlBasic.
-Extraction "../extract/gen/mix_model.ml" sds_views img_views ann_views file_order
+Extraction "../extract/gen/mix_model.ml" sds_views img_views ann_views file_order dfsd_session
   sd_read_sdd dfsd_read_sdd sdd_encode nt_decode dfsd_nt_decode nt_encode
   id_decode id_encode di_decode di_encode ndg_view dfsd_view dfr8_view dfgr_view get old_sds_file old_img_file
   hdf_write_var_SDD DFSDIputndg_SDD DFGRgetrig_ID DFGRaddrig_ID DFR8putrig_ID GRIupdatemeta_ID
